@@ -148,6 +148,18 @@ CLAIMED = {
    note='Trusted: Coq kernel; extraction + driver; cpppo\'s own producer renders the typed requests to frames (their byte layout is C01); session handles are random (oracle function in '
         'the model, only non-zero-ness compared); Forward Open / connected sends not in this check; remote routes only in the timing-dependent socket scenario (not modelled).',
    technique='Coq proof (induction over the request sequence; service-bit lemma over Model.Logix.exec) + model/implementation correspondence', design='6 C06'),
+ 'C08': dict(
+   text='Coq theorems (Properties/C08.v): a tag store changes only through a write / set service that is acknowledged (every refusal, every read, every bundle without such a member '
+        'leaves it unchanged); a frame is handed to the request processor only when its final byte has arrived (any processor, any chunking); a corrupt inner length cannot make a '
+        'nested parser complete beyond its limit; the reference decoder used as oracle accepts exactly the well-formed encodings; within one sub-machine cycle the visited '
+        '(target, next symbol, position) triples are pairwise distinct, so the cycle ends within |U|+1 iterations and never runs out of fuel.  Observation (runtime): hostile streams '
+        '(random bytes; bit flips, insertions, deletions, truncations, inconsistent length/count/offset fields at every nesting level, cut frames and cut bundle members of valid '
+        'sessions) through the real enip_srv_tcp + logix.process under a 4 s guard: return in time, reply-or-close, no per-connection state left, second session served, tags '
+        'changed only as the complete well-formed write requests in the stream (reference decoder: Model.Framing + Model.Codec) change them; 5 streams against a real TCP listener.',
+   note='PARTIAL by nature: hang-freedom, exception containment and liveness are runtime behaviour the Coq models (total functions) cannot exhibit; they are observed, not proved. '
+        'Trusted: Coq kernel; extraction + driver; the time guard; the tolerant reading that a write REQUEST which is complete and well-formed on its own counts even when the '
+        'enclosing frame has trailing bytes or a later bundle member is malformed (cpppo executes exactly those; documented in DESIGN.md).',
+   technique='Coq proof (store-change lemmas over Model.Logix, pigeonhole bound on the cycle crumbs, reuse of C01/C02/C10 theorems) + guarded structure-aware fuzzing against the reference decoder', design='6 C08'),
 }
 PENDING = {}
 ALL = ['C%02d' % i for i in range(1, 21)]
